@@ -68,7 +68,7 @@ CLAIMED = {
  "C13": ("fault_enumeration", "store-call fault enumeration over Merge from identical deep copies; classification by whether MetaStore.Update applied",
          "Every single store-call position of each explored population's Merge (iterator start and yields, CreateFile, OpenFile, Seek, Read, Write, Close pre/post, Update, TombstoneFile pre/post) is failed in turn, then the cleanup calls each failure provoked, PRNG pairs, a context cancelled mid-merge and a concurrent second Merge (the first held at its listing, source open, output create, write or commit). Committed runs must return nil or stats+ErrPostCommitCleanup with outputs referenced, sources unreferenced and tombstoned only after the commit; uncommitted runs must return an error, leave the MetaStore identical and never tombstone a source; visible rows never change.",
          "Exhaustive over single positions of explored populations. MetaStore.Update atomic. Update is also failed with an error wrapping context.Canceled while the Merge context is cancelled. Every fourth population uses FileSystemDataStore as both stores (fresh directory copy per run), where an uncommitted published output is visible content; runs whose cleanup calls the harness made fail are exempt from the content comparison there.", "6/C13"),
- "C14": ("exploration", "ack/start-tick snapshot monitor over concurrent writers, merger and query loops (both shipped MetaStores, -race) + porcupine linearizability of MemoryMetaStore histories",
+ "C14": ("exploration", "ack/start-tick snapshot monitor over concurrent writers, merger and query loops, match-all and partition-prefiltered (both shipped MetaStores, -race) + porcupine linearizability of MemoryMetaStore histories",
          "Every finished query is checked against the set of rows acknowledged before its start tick (Err == nil => each exactly once; never a duplicate or a never-ingested row); MemDataStore really deletes so vanished files must surface as errors. Short concurrent Update/snapshot histories of MemoryMetaStore are checked linearizable with porcupine. The FileSystemDataStore-as-MetaStore variant reports the known merge-window finding by signature and anything else as a violation.",
          "FS-variant attribution: store kind fs ∧ anomaly ∈ {duplicate, omission} ∧ every affected row belongs to sources of a merge whose call overlaps the query's lifetime.", "6/C14"),
  "C16": ("exploration", "sequential specification model vs. directory listing/OpenFile/scan after every operation, forced name collisions via the tagged setter; concurrent variant under the race detector",
